@@ -1,4 +1,5 @@
 import Oidc.Shapes
+import Oidc.Proofs.CodeJwk
 import Oidc.Proofs.Sched
 import Oidc.Facts
 /-! # C05 — concurrent requests are handled independently (property theorems only)
@@ -62,6 +63,69 @@ theorem fixed_pool_example :
                          ths := fun i => if i = 0 then ⟨A, none, []⟩ else if i = 1 then ⟨B, none, []⟩ else idle }
     ((runSched 0 s0 [0, 0, 1, 0, 0, 1]).ths 0).out = [7] ∧ ((runSched 0 s0 [0, 0, 1, 0, 0, 1]).ths 1).out = [100] :=
   Oidc.Sched.fixed_pool_example
+
+/-! ### the provider key-set cache, as translated from jwk.go on every run
+
+`JWKCache.GetJWKS` and `JWKCache.Cleanup` are taken into Lean by `tools/go2lean` (struct-mutating, clocked: the clock and the HTTP
+request at the key-set endpoint are operations of `Go.DOps`) and refine `Oidc.KeyCache`.  What requests that run at the same time
+rely on: whichever of them finds the entry stale asks the provider; every other lookup while the entry is fresh gets the very same
+key set and asks nobody; the clean-up ticker in between changes no answer. -/
+
+open Oidc.Generated.Code in
+/-- result, cache contents afterwards and whether the provider is asked: those of the model -/
+theorem code_GetJWKS_is_KeyCache_get {σ : Type} (ops : Go.DOps σ) (c : Go.JwkCache) (ctx : Go.Ctx) (url : Go.Str) (hc : Go.HTTPClient)
+    (w : σ) (hnil : ∀ w u, ((ops.fetchJWKS w u).1.2.isNone → (ops.fetchJWKS w u).1.1.isSome)) :
+    (JWKCache_GetJWKS ops c ctx url hc w).1.1.1
+        = (Oidc.KeyCache.get Go.Hour (Oidc.CodeJwk.abs c) (ops.clock w) (Oidc.CodeJwk.answerOf (ops.fetchJWKS w url).1) (ops.clock (ops.fetchJWKS w url).2)).1 ∧
+    Oidc.CodeJwk.abs (JWKCache_GetJWKS ops c ctx url hc w).1.2
+        = (Oidc.KeyCache.get Go.Hour (Oidc.CodeJwk.abs c) (ops.clock w) (Oidc.CodeJwk.answerOf (ops.fetchJWKS w url).1) (ops.clock (ops.fetchJWKS w url).2)).2 ∧
+    (JWKCache_GetJWKS ops c ctx url hc w).2 = (if Oidc.KeyCache.asks (Oidc.CodeJwk.abs c) (ops.clock w) then (ops.fetchJWKS w url).2 else w) ∧
+    ((JWKCache_GetJWKS ops c ctx url hc w).1.1.2.isSome ↔
+      (Oidc.KeyCache.asks (Oidc.CodeJwk.abs c) (ops.clock w) = true ∧ (ops.fetchJWKS w url).1.2.isSome)) :=
+  Oidc.CodeJwk.GetJWKS_refines ops c ctx url hc w hnil
+
+open Oidc.Generated.Code in
+/-- a lookup while the entry is fresh: the cached key set, no error, cache and world untouched (nobody is asked) -/
+theorem code_GetJWKS_fresh {σ : Type} (ops : Go.DOps σ) (c : Go.JwkCache) (ctx : Go.Ctx) (url : Go.Str) (hc : Go.HTTPClient) (w : σ)
+    (k : Go.JWKSet) (hk : c.jwks = some k) (hf : ops.clock w < c.expiresAt) :
+    JWKCache_GetJWKS ops c ctx url hc w = (((some k, none), c), w) := by
+  have h1 : (c.jwks.isSome && Go.timeBefore (ops.clock w) c.expiresAt) = true := by
+    simp [hk, Go.timeBefore]; exact hf
+  unfold JWKCache_GetJWKS
+  rw [if_pos h1, hk]
+
+open Oidc.Generated.Code in
+/-- no fresh entry and the key endpoint fails: an error and no keys — the expired key set is not served — and the cache is as before -/
+theorem code_GetJWKS_stale_and_failing {σ : Type} (ops : Go.DOps σ) (c : Go.JwkCache) (ctx : Go.Ctx) (url : Go.Str) (hc : Go.HTTPClient)
+    (w : σ) (hs : c.jwks = none ∨ c.expiresAt ≤ ops.clock w) (e : Go.Str) (he : (ops.fetchJWKS w url).1.2 = some e) :
+    (JWKCache_GetJWKS ops c ctx url hc w).1 = ((none, some e), c) := by
+  have h1 : (c.jwks.isSome && Go.timeBefore (ops.clock w) c.expiresAt) = false := by
+    rcases hs with hs | hs
+    · simp [hs]
+    · have : ¬ ops.clock w < c.expiresAt := Int.not_lt.mpr hs
+      simp [Go.timeBefore, this]
+  simp only [JWKCache_GetJWKS, h1, he]
+  simp
+
+/-- the clean-up ticker of the key cache is the model's `cleanup`, and lookups at or after it answer as if it had not run -/
+theorem code_JWKCache_Cleanup_transparent (c : Go.JwkCache) (t now : Int) (answer : Option Go.JWKSet) (after : Int) (h : t ≤ now) :
+    (Oidc.KeyCache.get Go.Hour (Oidc.CodeJwk.abs (Oidc.Generated.Code.JWKCache_Cleanup t c)) now answer after).1
+      = (Oidc.KeyCache.get Go.Hour (Oidc.CodeJwk.abs c) now answer after).1 ∧
+    Oidc.KeyCache.asks (Oidc.CodeJwk.abs (Oidc.Generated.Code.JWKCache_Cleanup t c)) now = Oidc.KeyCache.asks (Oidc.CodeJwk.abs c) now := by
+  rw [Oidc.CodeJwk.Cleanup_refines]
+  exact Oidc.CodeJwk.get_after_cleanup Go.Hour (Oidc.CodeJwk.abs c) t now answer after h
+
+/-- keys come from a fresh entry or from the provider's answer to this very lookup, never from an expired entry -/
+theorem keys_served_are_fresh_or_just_fetched {K : Type} (hour : Int) (s : Oidc.KeyCache.St K) (now : Int) (answer : Option K)
+    (after : Int) (k : K) (h : (Oidc.KeyCache.get hour s now answer after).1 = some k) :
+    (s.keys = some k ∧ now < s.expires) ∨ (Oidc.KeyCache.fresh s now = false ∧ answer = some k) :=
+  Oidc.CodeJwk.get_some hour s now answer after k h
+
+-- (premises satisfiable: an entry that expired at 10, looked up at 20 with a failing provider: nothing served, nothing changed)
+example : Oidc.KeyCache.get 3600 ({ keys := some 7, expires := 10, lifetime := 0 } : Oidc.KeyCache.St Nat) 20 none 21 =
+    (none, { keys := some 7, expires := 10, lifetime := 0 }) := by decide
+example : (Oidc.KeyCache.get 3600 ({ keys := some 7, expires := 10, lifetime := 0 } : Oidc.KeyCache.St Nat) 20 (some 8) 21).2.expires = 3621 := by decide
+
 
 /-! obligations against the regenerated program text: the functions these theorems rest on read, statement for statement, as
     they did when the model was written after them (`Oidc/Shapes.lean`) -/
